@@ -5,6 +5,7 @@ import (
 	"go/ast"
 	"go/token"
 	"go/types"
+	"regexp"
 	"sort"
 	"strings"
 
@@ -380,19 +381,44 @@ func (p *Program) ruleStructuralMinima(c *Check) {
 			continue
 		}
 		info := pkg.TypesInfo
-		// the ordinate scan: the innermost function literal that inspects .Type of its value
-		var lit *ast.FuncLit
-		ast.Inspect(fd.Body, func(n ast.Node) bool {
-			if fl, ok := n.(*ast.FuncLit); ok {
-				if mentions(fl.Body, func(m ast.Node) bool {
-					sel, ok := m.(*ast.SelectorExpr)
-					return ok && sel.Sel.Name == "Type"
-				}) {
-					lit = fl // keeps the innermost (visited last)
+		// the ordinate scan: the innermost function literal that inspects .Type of its value,
+		// in the parser itself or in a same-package helper it hands the position to
+		findLit := func(body *ast.BlockStmt) *ast.FuncLit {
+			var l *ast.FuncLit
+			ast.Inspect(body, func(n ast.Node) bool {
+				if fl, ok := n.(*ast.FuncLit); ok {
+					if mentions(fl.Body, func(m ast.Node) bool {
+						sel, ok := m.(*ast.SelectorExpr)
+						return ok && sel.Sel.Name == "Type"
+					}) {
+						l = fl // keeps the innermost (visited last)
+					}
 				}
-			}
-			return true
-		})
+				return true
+			})
+			return l
+		}
+		lit := findLit(fd.Body)
+		holder, holderDecl := fn, fd
+		var holderCall *ast.CallExpr
+		if lit == nil {
+			ast.Inspect(fd.Body, func(n ast.Node) bool {
+				call, ok := n.(*ast.CallExpr)
+				if !ok || lit != nil {
+					return true
+				}
+				callee, ok := typeutil.Callee(info, call).(*types.Func)
+				if !ok || callee == fn || callee.Pkg() != fn.Pkg() || strings.HasSuffix(callee.Name(), "Coords") {
+					return true
+				}
+				if hd := p.Decl(callee); hd != nil && hd.Body != nil {
+					if l := findLit(hd.Body); l != nil {
+						lit, holder, holderDecl, holderCall = l, callee, hd, call
+					}
+				}
+				return true
+			})
+		}
 		if lit == nil {
 			// a parser may hand its positions to one of its siblings, which is checked in its own right
 			delegate := ""
@@ -412,11 +438,84 @@ func (p *Program) ruleStructuralMinima(c *Check) {
 			continue
 		}
 		wantNull := fname == "parseJSONPointCoords"
+		counterName := ""
+		ast.Inspect(lit.Body, func(n ast.Node) bool {
+			switch st := n.(type) {
+			case *ast.IncDecStmt:
+				if id, ok := st.X.(*ast.Ident); ok && st.Tok == token.INC {
+					counterName = id.Name
+				}
+			case *ast.AssignStmt:
+				if id, ok := st.Lhs[0].(*ast.Ident); ok && st.Tok == token.ADD_ASSIGN && len(st.Lhs) == 1 {
+					counterName = id.Name
+				}
+			}
+			return true
+		})
+		if holder != fn {
+			// the caller must turn the helper's rejection into its own
+			honoured := false
+			var okVar types.Object
+			ast.Inspect(fd.Body, func(n ast.Node) bool {
+				as, ok := n.(*ast.AssignStmt)
+				if !ok || len(as.Rhs) != 1 || as.Rhs[0] != ast.Expr(holderCall) {
+					return true
+				}
+				for _, l := range as.Lhs {
+					if id, ok := l.(*ast.Ident); ok {
+						o := info.ObjectOf(id)
+						if o == nil {
+							continue
+						}
+						if bt, ok := o.Type().Underlying().(*types.Basic); (ok && bt.Kind() == types.Bool) || o.Type().String() == "error" {
+							okVar = o
+						}
+					}
+				}
+				return true
+			})
+			if okVar != nil {
+				ast.Inspect(fd.Body, func(n ast.Node) bool {
+					is, ok := n.(*ast.IfStmt)
+					if !ok || !rejects(info, is.Body.List) {
+						return true
+					}
+					uses := mentions(is.Cond, func(m ast.Node) bool {
+						id, ok := m.(*ast.Ident)
+						return ok && info.ObjectOf(id) == okVar
+					})
+					if uses {
+						honoured = true
+					}
+					return true
+				})
+			}
+			c.Expect(honoured, "E7.V1", con+": helper rejection honoured", p.declPos(fn), "the parser rejects when "+holder.Name()+" reports a bad ordinate", "the parser does not test the result by which "+holder.Name()+" reports a bad ordinate")
+		}
 		row := &e8row{id: con + ": ordinates", fn: fn, atoms: []string{kNumber, kNull, "4"},
 			group: func(string) int { return 0 },
 			what:  "per ordinate: numbers are stored and counted, null only in Point/MultiPoint positions, anything else is rejected with an error, and nothing is read beyond the fourth ordinate",
 			run: func(in *e8interp) *e8out {
 				fr := newFrame(pkg)
+				if holder != fn {
+					// parameters of the helper: a constant every caller agrees on is that constant, anything else is free
+					for _, f := range holderDecl.Type.Params.List {
+						for _, nm := range f.Names {
+							o := info.Defs[nm]
+							if o == nil {
+								continue
+							}
+							if b, ok := o.Type().Underlying().(*types.Basic); !ok || b.Info()&types.IsNumeric == 0 {
+								continue
+							}
+							if tv, ok := p.constArgOf(holder, o); ok {
+								fr.vars[o] = constVal(tv)
+							} else {
+								fr.vars[o] = in.newInput(o.Name(), o.Type())
+							}
+						}
+					}
+				}
 				i := 0
 				for _, f := range lit.Type.Params.List {
 					for _, nm := range f.Names {
@@ -435,6 +534,9 @@ func (p *Program) ruleStructuralMinima(c *Check) {
 			},
 			pre: func(a *e8assign, n *e8names) bool {
 				cnt := n.match(`^[a-zA-Z_][a-zA-Z_0-9]*$`)
+				if counterName != "" {
+					cnt = []string{counterName}
+				}
 				for _, s := range cnt {
 					if a.has(s, "4", kNull) && (a.R(s) > a.R("4") || a.R(s) < a.R(kNull)) {
 						return false // 0 <= count <= 4
@@ -445,6 +547,14 @@ func (p *Program) ruleStructuralMinima(c *Check) {
 			spec: func(a *e8assign, n *e8names, out *e8out) string {
 				ty := n.match(`\.Type$`)
 				cnt := n.match(`^[a-zA-Z_][a-zA-Z_0-9]*$`)
+				if counterName != "" {
+					cnt = nil
+					for _, s := range n.scalars {
+						if s == counterName {
+							cnt = []string{s}
+						}
+					}
+				}
 				if len(ty) != 1 || len(cnt) != 1 {
 					return "the scan does not test the value's JSON type and an ordinate counter"
 				}
@@ -463,6 +573,11 @@ func (p *Program) ruleStructuralMinima(c *Check) {
 						continue
 					}
 					if o.Type().String() == "error" && v != nil && v.name != o.Name() {
+						errSet = true
+					}
+					// a captured flag assigned a constant in this run (a helper signals rejection through it)
+					if bt, ok := o.Type().Underlying().(*types.Basic); ok && bt.Kind() == types.Bool && v != nil && v.k == kBool && v.name == "" &&
+						!(lit.Pos() <= o.Pos() && o.Pos() < lit.End()) && holder != fn {
 						errSet = true
 					}
 					if o.Name() == cnt[0] {
@@ -496,7 +611,7 @@ func (p *Program) ruleStructuralMinima(c *Check) {
 		ast.Inspect(fd.Body, func(n ast.Node) bool {
 			if is, ok := n.(*ast.IfStmt); ok {
 				cond := strings.ReplaceAll(types.ExprString(is.Cond), " ", "")
-				if (cond == "count<2" || cond == "2>count" || cond == "count<=1") && rejects(info, is.Body.List) {
+				if countGuardRe.MatchString(cond) && rejects(info, is.Body.List) {
 					countGuard = true
 				}
 			}
@@ -949,4 +1064,118 @@ func (p *Program) callsParse(f *types.Func, depth int) bool {
 		return !found
 	})
 	return found
+}
+
+var countGuardRe = regexp.MustCompile(`^(\w+<2|2>\w+|\w+<=1|1>=\w+)$`)
+
+// constArgOf: the constant every call site in the repository passes for parameter par of fn.
+func (p *Program) constArgOf(fn *types.Func, par types.Object) (types.TypeAndValue, bool) {
+	sig := fn.Type().(*types.Signature)
+	idx := -1
+	for i := 0; i < sig.Params().Len(); i++ {
+		if sig.Params().At(i) == par {
+			idx = i
+		}
+	}
+	var have *types.TypeAndValue
+	ok := idx >= 0
+	for _, d := range p.RepoDecls() {
+		fd, pkg := p.Decl(d), p.DeclPkg(d)
+		if fd == nil || fd.Body == nil || !ok {
+			continue
+		}
+		ast.Inspect(fd.Body, func(n ast.Node) bool {
+			call, isCall := n.(*ast.CallExpr)
+			if !isCall {
+				return true
+			}
+			if callee, _ := typeutil.Callee(pkg.TypesInfo, call).(*types.Func); callee != fn || idx >= len(call.Args) {
+				return true
+			}
+			tv, has := pkg.TypesInfo.Types[call.Args[idx]]
+			if has && tv.Value == nil {
+				// a local that is defined once, by a constant, and never written again
+				if id, isId := ast.Unparen(call.Args[idx]).(*ast.Ident); isId {
+					if ctv, isConst := singleConstDef(pkg.TypesInfo, fd.Body, pkg.TypesInfo.ObjectOf(id)); isConst {
+						tv = ctv
+					}
+				}
+			}
+			if !has || tv.Value == nil {
+				ok = false
+				return true
+			}
+			if have != nil && have.Value.ExactString() != tv.Value.ExactString() {
+				ok = false
+			}
+			t := tv
+			have = &t
+			return true
+		})
+	}
+	if !ok || have == nil {
+		return types.TypeAndValue{}, false
+	}
+	return *have, true
+}
+
+// singleConstDef: obj is a local variable whose only write in body is its
+// definition from a constant expression (and whose address is never taken).
+func singleConstDef(info *types.Info, body *ast.BlockStmt, obj types.Object) (types.TypeAndValue, bool) {
+	var out types.TypeAndValue
+	if obj == nil {
+		return out, false
+	}
+	writes, ok := 0, true
+	ast.Inspect(body, func(n ast.Node) bool {
+		switch st := n.(type) {
+		case *ast.AssignStmt:
+			for i, l := range st.Lhs {
+				id, isId := l.(*ast.Ident)
+				if !isId || info.ObjectOf(id) != obj {
+					continue
+				}
+				writes++
+				if len(st.Lhs) != len(st.Rhs) || (st.Tok != token.DEFINE && st.Tok != token.ASSIGN) {
+					ok = false
+					continue
+				}
+				if tv, has := info.Types[st.Rhs[i]]; has && tv.Value != nil {
+					out = tv
+				} else {
+					ok = false
+				}
+			}
+		case *ast.ValueSpec:
+			for i, id := range st.Names {
+				if info.ObjectOf(id) != obj {
+					continue
+				}
+				writes++
+				if i < len(st.Values) {
+					if tv, has := info.Types[st.Values[i]]; has && tv.Value != nil {
+						out = tv
+						continue
+					}
+				}
+				ok = false
+			}
+		case *ast.IncDecStmt:
+			if id, isId := st.X.(*ast.Ident); isId && info.ObjectOf(id) == obj {
+				ok = false
+			}
+		case *ast.UnaryExpr:
+			if id, isId := st.X.(*ast.Ident); isId && st.Op == token.AND && info.ObjectOf(id) == obj {
+				ok = false
+			}
+		case *ast.RangeStmt:
+			for _, e := range []ast.Expr{st.Key, st.Value} {
+				if id, isId := e.(*ast.Ident); isId && info.ObjectOf(id) == obj {
+					ok = false
+				}
+			}
+		}
+		return true
+	})
+	return out, ok && writes == 1 && out.Value != nil
 }
